@@ -405,6 +405,39 @@ def check_json_mode(ctx, tree_recipe):
     return True
 
 
+def check_json_mode_jsx(ctx, rng, k):
+    """A JSX component written in JSON mode - on its own (str / _repr_html_), in a list, in a tag - and post-processed gives the
+    dependencies and the body the direct rendering gives."""
+    import htmltools
+    from ..loader import jsx_mod
+
+    dep = ht.HTMLDependency("chartlib%d" % (k % 3), "4.%d" % (k % 4), source={"href": "https://cdn.example/chartlib"}, script={"src": "chart.js"}, head="<!-- chartlib -->")
+    mk = lambda: jsx_mod.jsx_tag_create("Chart")(dep, ht.div("caption %d" % k), kind="bar")   # noqa: E731
+    direct = ht.TagList(mk()).render()
+    how = rng.choice(["str", "repr_html", "in_list", "in_tag", "repr"])
+    old = htmltools.html_dependency_render_mode
+    htmltools.html_dependency_render_mode = "json"
+    try:
+        w = mk()
+        piece = str(w) if how == "str" else w._repr_html_() if how == "repr_html" else repr(w) if how == "repr" else str(ht.TagList(w)) if how == "in_list" else str(ht.div(w))
+    finally:
+        htmltools.html_dependency_render_mode = old
+    if how == "in_tag":
+        direct = ht.div(mk()).render()
+    ctx.count("oracle.json_mode_jsx")
+    out = ht.HTMLTextDocument("<html><head>" + PLACEHOLDER + "</head><body>" + piece + "</body></html>", deps_replace_pattern=PLACEHOLDER).render()
+    wit = {"how": how, "piece": piece[:600]}
+    if [fields(x) for x in out["dependencies"]] != [fields(x) for x in direct["dependencies"]]:
+        ctx.violation("json-mode-deps-differ", "dependencies of a JSX component (%s) after the JSON-mode round trip differ from direct rendering" % how,
+                      dict(wit, got=[x.name for x in out["dependencies"]], want=[x.name for x in direct["dependencies"]]))
+        return False
+    body = re.search(r"<body>(.*)</body>", out["html"], re.S).group(1)
+    if body.rstrip("\n") != direct["html"].rstrip("\n") or "data-html-dependency" in out["html"]:
+        ctx.violation("json-mode-body-differs", "body text of a JSX component (%s) after the JSON-mode round trip differs from direct rendering" % how, dict(wit, got=body[:800], want=direct["html"][:800]))
+        return False
+    return True
+
+
 def check_failed_then_retry(ctx, recipes, rng):
     """A text whose LAST embedded dependency is unusable is refused; the caller's deps= list is as it was, and the repaired text
     with the same list gives what a first attempt with the repaired text gives."""
@@ -567,4 +600,6 @@ def run(ctx):
         if rng.random() < 0.3:
             ctx.guard(check_failed_then_retry, ctx, [k for k in kids if k["k"] == "dep"] or [rand_dep_recipe(rng, 0, benign_head=True)], rng, witness={"scenario": "refused, repaired, retried"})
         ctx.guard(check_json_mode, ctx, tree, witness={"tree": tree})
+        if rng.random() < 0.2:
+            ctx.guard(check_json_mode_jsx, ctx, rng, ctx.counters["oracle.json_mode"], witness={"scenario": "JSX component in JSON mode"})
         ctx.case(tree, nontrivial=any(k["k"] == "dep" for k in kids))
